@@ -41,13 +41,13 @@ def run(ctx, rep):
     from rules.C10 import borrow
     typedid.run(ctx, rep, "C01.a", owners=["index::indexer::Indexer.indexed"])
     n = borrow(rep, ctx, C18, lambda o: o.rule == "C18.e", "C01.b")
-    rep.floor("C01.b", "borrowed obligations", n, 2)
+    rep.floor("C01.b", "borrowed obligations", n, 1)
     n = borrow(rep, ctx, C14, lambda o: o.rule == "C14.g", "C01.e")
     n += borrow(rep, ctx, C08, lambda o: o.rule == "C08.c", "C01.e")
     rep.floor("C01.e", "borrowed obligations", n, 4)
     # restore-side necessary conditions for byte equality (decided in C14)
     n = borrow(rep, ctx, C14, lambda o: o.rule in ("C14.f", "C14.h", "C14.i"), "C01.g")
-    rep.floor("C01.g", "borrowed obligations", n, 6)
+    rep.floor("C01.g", "borrowed obligations", n, 4)
     rep.rule("C01.i", "ranged reads: one-iteration summary of OpenFile::read_at (symbolic lengths)")
     ranged_read_rule(ctx, rep, "C01.i")
     rep.rule("C01.h", "backup records each metadata field from the matching file-system accessor; symlink targets via read_link")
@@ -64,7 +64,7 @@ def run(ctx, rep):
                     s = _first_const_str_call(c, x, r"String::push_str$")
                     if s is not None:
                         writer[int(v)] = s
-    rep.floor("C01.c", "writer escape arms", len(writer), 9)
+    rep.floor("C01.c", "writer escape arms", len(writer), 6)
     reader = {}
     for bi in range(len(UNE.blocks)):
         t = UNE.term(bi)
